@@ -13,7 +13,7 @@ import (
 
 func init() {
 	simrt.Register(&simrt.Scenario{
-		Prop: "C13", Name: "mb-dead-peer", Count: tiered(150, 15000),
+		Prop: "C13", Name: "mb-dead-peer", Count: tiered(150, 120000),
 		Run: c13Mailbox, MaxOps: 6 << 20, Horizon: 4 * time.Hour,
 		Doc: "full stack over the stub relay; on the first, second or third connection of a session (the later ones come from RefreshClientConn / RefreshServerConn) the relay starts to swallow every message at a tape-chosen moment (idle or mid-transfer); both applications' Read/Write must fail within the keepalive bound",
 	})
